@@ -135,13 +135,13 @@ theorem global_layer_mask_info_roundtrip (g : GlobalLayerMaskInfo) (hwf : g.WF) 
     GlobalLayerMaskInfo.dec (pre ++ g.encT ++ post) pre.length = .ok (g, pre.length + g.encT.length) :=
   (GlobalLayerMaskInfo.dec_step hwf (At.intro_rest pre _ post)).1
 
-/-- the section reader probes the bytes after the section (`is_readable(fp, 17)`, `is_readable(fp)`):
-the law needs `post` non-empty, and `WF` relates the global mask to `post.length` -/
-theorem layer_and_mask_roundtrip (v pad : Nat) (x : LayerAndMask) (pre post : B) (hpost : 1 ≤ post.length)
-    (hwf : x.WF v pad post.length) :
+/-- the section reader looks at the section only (`fp.tell() + 4 <= end_pos`, `fp.tell() < end_pos`; repaired in this
+round — it used to probe the bytes after the section with `is_readable(fp, 17)` and `is_readable(fp)`): the law holds
+wherever the section sits -/
+theorem layer_and_mask_roundtrip (v pad : Nat) (x : LayerAndMask) (pre post : B) (hwf : x.WF v pad) :
     LayerAndMask.dec v (pre ++ x.encT v pad ++ post) pre.length =
       .ok (x.refresh, pre.length + (x.encT v pad).length) :=
-  LayerAndMask.dec_at hwf (At.intro pre _ post) (by simp only [List.length_append]; omega) hpost
+  LayerAndMask.dec_at hwf (At.intro pre _ post)
 
 /-- image data is read to the end of the file: lawful at end only -/
 theorem image_data_roundtrip_at_end (i : ImageData) (hwf : i.WF) (pre : B) :
@@ -225,13 +225,13 @@ theorem glm_defaults_not_stored_not_roundtrip : NotRoundTrip glmNotStored :=
     by decide +kernel, by decide +kernel⟩
 
 /-- the document shape `PSDImage` builds (`LayerInfo`, `GlobalLayerMaskInfo()`, `TaggedBlocks()`) with a
-3-byte image: the global mask comes back as `None`, and the re-written file differs as well -/
-theorem glm_short_tail_not_roundtrip : NotRoundTrip Samples.glmShortTail ∧
-    ∃ bs d' n, PSD.enc 4 Samples.glmShortTail = .ok bs ∧ PSD.read bs 0 = .ok (d', n) ∧ PSD.enc 4 d' ≠ .ok bs :=
-  ⟨⟨Samples.glmShortTail.encT 4, Samples.mk ⟨some (Samples.oneRecord Samples.rangesDefault), none, some []⟩ ⟨0, [1, 2, 3]⟩, 143, by decide +kernel,
-      by decide +kernel, by decide +kernel⟩,
-   ⟨Samples.glmShortTail.encT 4, Samples.mk ⟨some (Samples.oneRecord Samples.rangesDefault), none, some []⟩ ⟨0, [1, 2, 3]⟩, 143, by decide +kernel,
-      by decide +kernel, by decide +kernel⟩⟩
+3-byte image. Before the repair of `LayerAndMaskInformation._read_body` (gate `is_readable(fp, 17)`) the global mask
+came back as `None` and the re-written file was 4 bytes shorter; it is well formed now and round-trips. -/
+theorem glm_short_tail_roundtrip : PSD.WF 4 Samples.glmShortTail ∧
+    ∃ bs, PSD.enc 4 Samples.glmShortTail = .ok bs ∧ PSD.read bs 0 = .ok (Samples.glmShortTail, bs.length) :=
+  have hwf : PSD.WF 4 Samples.glmShortTail := by decide +kernel
+  have henc : PSD.enc 4 Samples.glmShortTail = .ok (Samples.glmShortTail.encT 4) := by decide +kernel
+  ⟨hwf, _, henc, psd_roundtrip_fresh 4 Samples.glmShortTail hwf (by decide +kernel) _ henc⟩
 
 open Samples in
 theorem lam_tagged_none_not_roundtrip : NotRoundTrip lamTaggedNone :=
